@@ -445,17 +445,32 @@ impl Sparse<f64> {
 
         let mut normb = b.norm_2();
         let mut r = b.clone() - self.multiply( x );
-        let rtilde = r.clone();
+        let mut rtilde = r.clone();
         if !normb.is_finite() { return Err( normb ); } // ||b|| overflowed: every residual / ||b|| would read as 0
         if normb == 0.0 { normb = 1.0; }
         resid = r.norm_2() / normb;
         if resid <= tol && Self::all_finite( x ) { return Ok( 0 ); }
 
+        let mut fresh = true; // the recurrences start ( or restart ) with this iteration
+        // A breakdown ( rho, alpha or omega zero or undefined; regular once the Krylov space is
+        // exhausted ) says nothing about x: confirm with the true residual and restart from it,
+        // unless the recurrences have only just been started
+        macro_rules! breakdown { ( $started:expr, $i:expr ) => { {
+            r = b.clone() - self.multiply( x );
+            resid = r.norm_2() / normb;
+            if resid <= tol && Self::all_finite( x ) { return Ok( $i ); }
+            if $started { return Err( resid ); }
+            rtilde = r.clone();
+            fresh = true;
+            continue;
+        } } }
         for i in 1..=max_iter {
+            let started = fresh;
             rho_1 = rtilde.dot( &r );
-            if rho_1 == 0.0 { return Err( r.norm_2() / normb ); }
-            if i == 1 {
+            if rho_1 == 0.0 { breakdown!( started, i - 1 ) }
+            if fresh {
                 p = r.clone();
+                fresh = false;
             } else {
                 beta = ( rho_1 / rho_2 ) * ( alpha / omega );
                 p = r.clone() + beta * ( p.clone() - omega * v.clone() );
@@ -464,6 +479,7 @@ impl Sparse<f64> {
             self.identity_preconditioner( &p, &mut phat );
             v = self.multiply( &phat );
             alpha = rho_1 / rtilde.dot( &v );
+            if !alpha.is_finite() { breakdown!( started, i - 1 ) }
             s = r.clone() - v.clone() * alpha;
             *x += alpha * phat.clone();
             resid = s.norm_2() / normb;
@@ -478,6 +494,7 @@ impl Sparse<f64> {
             self.identity_preconditioner( &s, &mut shat );
             t = self.multiply( &shat );
             omega = t.dot( &s ) / t.dot( &t );
+            if omega == 0.0 || !omega.is_finite() { breakdown!( false, i ) }
             *x += omega * shat.clone();
             r = s - t * omega;
             rho_2 = rho_1;
@@ -487,7 +504,6 @@ impl Sparse<f64> {
                 resid = r.norm_2() / normb;
                 if resid < tol && Self::all_finite( x ) { return Ok( i ); }
             }
-            if omega == 0.0 { return Err( resid ); }
         }
         Err(resid)
     } 
